@@ -20,7 +20,7 @@ pub fn def() -> PropDef {
     PropDef {
         id: "C13",
         level: "model_checking",
-        rule: "(a) every sequence of length <= d over {remote insert of an entry of a two-author universe, remove-and-recreate the document, ask for the heads and a news verdict}; after the last step get_latest_for_each_author and has_news_for_us(h) for every peer report h in {absent,0,T1,T2,T3}^2 x {no third author, an author never seen whose id sorts before / between / after the two x timestamp 0,T1,T3} are compared with the heads of the reference replica; (b) AuthorHeads::encode/decode for every set of <= 4 authors with timestamps from {0,1,2,127,128,16383,16384} (equal timestamps included) under every size limit from 1 to unlimited length + 1 and without limit, plus one set of 200 heads (the length prefix of the encoding grows to two bytes at 128) under every limit in the window that keeps 120..136 heads; (c) the head set as a data structure: every sequence of <= 4 inserts over 3 authors x timestamps {0,1,2,u64::MAX}: get/len/iter equal the per-author maximum, and for every split of the sequence into two sets merge is the pointwise maximum, has_news_for counts exactly the strictly newer or unknown authors, encode/decode returns the set; (d) a neighbour's sync report delivered to an idle real LiveActor (on_actor_message -> on_sync_report) for 3 document states x {absent,0,T1,T2,T3}^2 reports x {synced, unsynced document} leads to a dial exactly when it is news, also when the neighbour repeats it after the dial it caused was lost; non-trivial (a) = the sequence holds two entries of one author with different timestamps or a removal after an insert, (b) = at least two authors",
+        rule: "(a) every sequence of length <= d over {remote insert of an entry of a two-author universe, remove-and-recreate the document, ask for the heads and a news verdict}; after the last step get_latest_for_each_author and has_news_for_us(h) for every peer report h in {absent,0,T1,T2,T3}^2 x {no third author, an author never seen whose id sorts before / between / after the two x timestamp 0,T1,T3} are compared with the heads of the reference replica; (b) AuthorHeads::encode/decode for every set of <= 4 authors with timestamps from {0,1,2,127,128,16383,16384} (equal timestamps included) under every size limit from 1 to unlimited length + 1 and without limit, plus one set of 200 heads (the length prefix of the encoding grows to two bytes at 128) under every limit in the window that keeps 120..136 heads; (c) the head set as a data structure: every sequence of <= 4 inserts over 3 authors x timestamps {0,1,2,u64::MAX}: get/len/iter equal the per-author maximum, and for every split of the sequence into two sets merge is the pointwise maximum, has_news_for counts exactly the strictly newer or unknown authors, encode/decode returns the set; (d) a neighbour's sync report delivered to an idle real LiveActor (on_actor_message -> on_sync_report) for 3 document states x {absent,0,T1,T2,T3}^2 reports x {synced, unsynced document} leads to a dial exactly when it is news, also when the neighbour repeats it after the dial it caused was lost; (e) five complete sessions between the real initiator loop and the real acceptor loop (run_alice / BobState::run over in-memory pipes, among them one with 450 entries per side over pipes smaller than a frame): per author, the head each side reports as received is at least the newest entry that entered from the peer and at most the peer's newest; non-trivial (a) = the sequence holds two entries of one author with different timestamps or a removal after an insert, (b) = at least two authors",
         assumptions: &[
             "size limit 0 is excluded: no postcard sequence fits into zero bytes",
             "where several keys attain an author's maximal timestamp any of them is accepted as the head's key",
@@ -551,6 +551,29 @@ fn check_engine_reports(report: &mut Report) {
 }
 
 fn run(ctx: &Ctx, report: &mut Report) {
+    // (e) the heads a session reports as received (they go into the sync report the node sends to
+    // its neighbours): complete sessions between the real initiator and the real acceptor loops
+    for variant in 0..5u8 {
+        if ctx.shard != (3 + variant as u64) % ctx.of {
+            continue;
+        }
+        report.evaluations += 1;
+        report.nontrivial += 1;
+        report.count("sessions_probed_for_received_heads", 1);
+        let case = json!({"received_heads_probe": variant});
+        match crate::util::catch(|| super::c10::received_heads_probe(variant)) {
+            Err(p) => report.violation("no_panic", json!({"probe": true}), case, format!("panic: {p}"), 0),
+            Ok(bad) => {
+                for d in bad {
+                    if d.starts_with("MACHINERY") {
+                        report.machinery_error(d);
+                    } else {
+                        report.violation("session_outcome_reports_received_heads", json!({"variant": variant}), case.clone(), d, 0);
+                    }
+                }
+            }
+        }
+    }
     crate::util::silence_panics();
     let mut ordinal = 0u64;
     // (d)
@@ -679,6 +702,11 @@ fn run(ctx: &Ctx, report: &mut Report) {
 }
 
 fn replay(case: &Value) -> anyhow::Result<(bool, String)> {
+    if let Some(v) = case.get("received_heads_probe").and_then(|v| v.as_u64()) {
+        let bad = crate::util::catch(|| super::c10::received_heads_probe(v as u8)).map_err(|p| anyhow::anyhow!(p))?;
+        let out: String = bad.iter().map(|d| format!("FAILED session_outcome_reports_received_heads: {d}\n")).collect();
+        return Ok((!bad.is_empty(), format!("received heads of a complete session, variant {v}\n{out}")));
+    }
     if case.get("heads_large").is_some() {
         return match catch(check_heads_large) {
             Err(p) => Ok((true, format!("panic: {p}"))),
